@@ -74,7 +74,7 @@ def main():
             line = line.strip()
             if line.startswith("CHECK-ERROR"):
                 fired.setdefault("CHECK-ERROR", []).append(line[:300])
-            if "|" in line and "[K" in line and not line.startswith(("VIOLATION", "C")):
+            if "|" in line and "[K" in line and not line.startswith(("VIOLATION", "C0", "C1")):
                 key = line.split(" [K", 1)[0]
                 fired.setdefault(key.split("|", 1)[0], []).append(key)
         props = sorted(set(l.split("property=")[1].split()[0] for l in out.splitlines() if l.startswith("VIOLATION")))
